@@ -54,6 +54,8 @@ def fns : List Fn := [
 def unclassified : List String := []
 /-- (function, aws-lc call): calls that write through (or release) an object the function only holds by shared reference -/
 def sharedMutations : List (String × String) := []
+/-- (function, aws-lc call): calls that consult or change per-thread / process-wide library state (error queue, RNG seeding, global configuration) -/
+def threadStateCalls : List (String × String) := []
 /-- aws-lc functions imported by lc/mod.rs -/
 def ffiImports : List String := ["BN_bin2bn", "BN_bn2bin", "BN_bn2bin_padded", "BN_num_bytes", "ECDH_compute_key", "ECDSA_SIG_from_bytes", "ECDSA_SIG_get0", "ECDSA_SIG_new", "ECDSA_SIG_set0", "ECDSA_SIG_to_bytes", "ECDSA_sign", "ECDSA_size", "ECDSA_verify", "EC_KEY_get0_private_key", "EC_KEY_get0_public_key", "EC_KEY_new", "EC_KEY_set_group", "EC_KEY_set_private_key", "EC_KEY_set_public_key", "EC_POINT_is_at_infinity", "EC_POINT_mul", "EC_POINT_new", "EC_POINT_oct2point", "EC_POINT_point2oct", "EC_group_p384"]
 /-- `impl Drop for ManagedPointer` is exactly `self.pointer.free();` -/
